@@ -96,9 +96,9 @@ def compose_only_unit(cls):
 
 def k6(P, cls, obj, wire):
     """clause K6: the composed bytes equal the specification encoding written from the protocol documents"""
-    from spec import wire as W, tls, opptls      # noqa: F401
+    from spec import wire as W, tls, opptls, dns      # noqa: F401
     try:
-        from spec import ssh, dns                # noqa: F401
+        from spec import ssh                     # noqa: F401
     except ImportError:
         pass
     f = W.SPECS.get(cls.__name__)
@@ -117,9 +117,9 @@ def k6(P, cls, obj, wire):
 
 
 def has_spec(cls):
-    from spec import wire as W, tls, opptls      # noqa: F401
+    from spec import wire as W, tls, opptls, dns      # noqa: F401
     try:
-        from spec import ssh, dns                # noqa: F401
+        from spec import ssh                     # noqa: F401
     except ImportError:
         pass
     return cls.__name__ in W.SPECS
